@@ -14,8 +14,8 @@ export Flipdot.Generated.Core.Page (headerLen bytesPerColumn dataBytes totalByte
   getPixel setPixel setAllPixels id)
 end GP
 namespace GF
-export Flipdot.Generated.Core.Frame (checksum payload toBytes toBytesWithNewline dataMax dataMaxReported
-  frameRegexIsPinned)
+export Flipdot.Generated.Core.Frame (checksum payload payloadPure toBytes toBytesWithNewline dataMax dataMaxReported
+  frameRegexIsPinned fromCaptures)
 end GF
 
 /-! ### page.rs -/
@@ -170,5 +170,27 @@ theorem tryNew_src (d : List UInt8) :
   simp [Data.tryNew, dataMax_eq.1, dataMax_eq.2]
 
 theorem regex_pinned : GF.frameRegexIsPinned = true := rfl
+
+theorem payloadPure_eq (f : Frame) : GF.payloadPure f = Flipdot.payload f := by
+  simp [Generated.Core.Frame.payloadPure, Flipdot.payload]
+
+/-- The decoder after the regular expression: the translated tail (length test, `Data::try_new`, checksum
+    test, in the source's order, with the source's error fields) applied to the parsed groups is the model's
+    `checkBytes` on the numeric bytes `len, addr_hi, addr_lo, type, data…, checksum`. -/
+theorem fromCaptures_eq (len ah al ty ck : UInt8) (data : List UInt8) :
+    GF.fromCaptures len (ah.toUInt16 * 256 + al.toUInt16) ty data ck
+      = checkBytes (len :: ah :: al :: ty :: (data ++ [ck])) := by
+  unfold Generated.Core.Frame.fromCaptures checkBytes
+  simp only [List.getLast?_append, List.getLast?_singleton, Option.some_or, List.dropLast_concat, payloadPure_eq, checksum_eq]
+  by_cases hl : data.length = len.toNat
+  · simp only [hl, ne_eq, not_true_eq_false, ↓reduceIte]
+    cases hd : Data.tryNew data with
+    | error e => rfl
+    | ok d =>
+      first
+        | rfl
+        | (by_cases hc : lrc (Flipdot.payload ⟨ah.toUInt16 * 256 + al.toUInt16, ty, d⟩) = ck <;> simp [hc])
+  · simp [hl]
+
 
 end Flipdot.Tie.Core
